@@ -56,7 +56,7 @@ pub fn entry_info<E: Entry>(e: &E) -> EntryInfo {
 }
 
 /// Run the same script on the handle and on a Cursor over `data`; first difference, if any
-fn handle_session_mismatch(f: &mut Box<dyn rivia::prelude::ReadSeek>, data: &[u8]) -> Option<String> {
+pub fn handle_session_mismatch(f: &mut Box<dyn rivia::prelude::ReadSeek>, data: &[u8]) -> Option<String> {
     use std::io::{Cursor, Read, Seek, SeekFrom};
     let mut c = Cursor::new(data.to_vec());
     fn read_n<R: Read + ?Sized>(r: &mut R, n: usize) -> Result<Vec<u8>, ()> {
